@@ -85,6 +85,13 @@ def check(run):
              for c in (("Store", 3), ("LoadOrStore", 3))]
     for i, (s, a, b, c) in enumerate(fresh if not q else run.rng.sample(fresh, 200)):
         conc.append(program(list(s), [[a], [b, c]], "dfs", n=cap, fine=0, preempt=2, epi=i % 2, keys=[1, 2, 3]))
+    # three goroutines on ONE key (the lock-free compare-and-swap loops only misbehave when a third party changes the entry back):
+    # every <= 2-preemption schedule of three calls on key 1, from the layouts that have key 1 in the read map
+    inread = [sq for key, sq in layouts.items() if json.loads(key)[0][0] != -9]
+    k1 = ops_over([1])[:-1]
+    three = [(sq, a, b, c) for sq in inread for a in k1 for b in k1 for c in k1]
+    for i, (sq, a, b, c) in enumerate(three if not q else run.rng.sample(three, 200)):
+        conc.append(program(list(sq), [[a], [b], [c]], "dfs", n=250, fine=0, preempt=2, epi=i % 2))
     # 3 goroutines x 1 call and 2 goroutines x 2 calls: seeded random schedules (beyond the exhaustive bounds)
     rnd = []
     for i in range(60 if q else 1200):
